@@ -6,7 +6,7 @@ use std::rc::Rc;
 use flipdot::{Address, Page, PageFlipStyle, Sign, SignBus, SignError};
 use flipdot_core::Message;
 
-use crate::doubles::ScriptedBusError;
+use crate::doubles::bus_error;
 use crate::refctl::{Op, Outcome, RefCtl, Reply, Step};
 use crate::refs::{self, *};
 use crate::util::{catch, short_loc};
@@ -133,6 +133,8 @@ pub struct ScriptBus {
     pub positions: Vec<&'static str>,
     pub divergence: Option<(usize, String)>,
     pub stop_at_divergence: bool,
+    /// which kind of error object a bus error is (see doubles::bus_error)
+    pub error_flavour: u8,
 }
 
 impl ScriptBus {
@@ -150,6 +152,7 @@ impl ScriptBus {
             positions: vec![],
             divergence: None,
             stop_at_divergence: false,
+            error_flavour: 0,
         }
     }
 }
@@ -192,7 +195,7 @@ impl SignBus for ScriptBus {
         }
         self.log.push((got, reply.clone()));
         match reply {
-            Reply::BusError => Err(Box::new(ScriptedBusError("scripted bus error".into()))),
+            Reply::BusError => Err(bus_error(self.error_flavour)),
             Reply::Msg(None) => Ok(None),
             Reply::Msg(Some(m)) => Ok(Some(refs::from_ref(&m))),
         }
@@ -241,6 +244,11 @@ pub struct Session {
 }
 
 impl Session {
+    pub fn with_error_flavour(self, flavour: u8) -> Session {
+        self.bus.borrow_mut().error_flavour = flavour;
+        self
+    }
+
     pub fn new(own: u16, foreign: u16, ty: usize) -> Session {
         let bus = Rc::new(RefCell::new(ScriptBus::new(alphabet(own, foreign), vec![], 0)));
         let sign = mk_sign(bus.clone(), own, ty);
